@@ -137,6 +137,8 @@ def _vary_syscall_faults(spec, seed):
         if fl and isinstance(fl, list) and fl[0].get("mode", "w") == "w" and rng.random() < 0.25:
             on = rng.choice(["rename", "rename", "rename", "mkdir", "remove"])
             op["fs_faults"] = [{"on": on, "mode": "w", "nth": 1, "errno": rng.choice(["EACCES", "EIO", "ENOSPC"])}]
+        if isinstance(op, dict) and op.get("op") == "gen_manual" and isinstance(op.get("board"), dict) and rng.random() < 0.35:
+            op["board"] = dict(op["board"], container=rng.choice(["tuple", "tuple", "rows_tuple", "outer_tuple"]))
         it = op.get("interrupt") if isinstance(op, dict) else None
         if isinstance(it, dict) and rng.random() < 0.4:
             # aim the interruption a few lines after the k-th file-system event of the op (see common.interrupt_at)
